@@ -64,6 +64,8 @@ def net_entry(rng, kind, eid, n1, n2):
         ref.update(kind='LI', I=[i.real, i.imag], Y=[y.real, y.imag])
     elif kind == 'current_source':
         e['I'], i = cplx_dict(rng); ref.update(kind='I', I=[i.real, i.imag])
+        if rng.random() < 0.4:                   # the optional inner admittance, a plain number that is passed through to the element
+            e['Y'] = rng.choice([1 / v(), int(rng.randint(1, 5))]); ref.update(kind='LI', Y=e['Y'])
     elif kind == 'real_current_source':
         e['I'] = rng.choice([1, -1]) * v()
         if rng.random() < 0.5:
@@ -75,6 +77,8 @@ def net_entry(rng, kind, eid, n1, n2):
         ref.update(kind='LV', V=[u.real, u.imag], Z=[z.real, z.imag])
     elif kind == 'voltage_source':
         e['V'], u = cplx_dict(rng); ref.update(kind='V', V=[u.real, u.imag])
+        if rng.random() < 0.4:                   # the optional inner impedance, a plain number
+            e['Z'] = rng.choice([v(), int(rng.randint(1, 5))]); ref.update(kind='LV', Z=e['Z'])
     elif kind == 'real_voltage_source':
         e['V'] = rng.choice([1, -1]) * v()
         if rng.random() < 0.5:
